@@ -299,6 +299,17 @@ def m_to_owned(ex, st, args, callee, ty):
     return PathBufM(p.comps)
 
 
+def m_pathbuf_from_any(ex, st, args, callee, ty):
+    v = _obj(ex, st, args[0])
+    if isinstance(v, Comp):
+        return PathBufM([v])
+    if isinstance(v, Str) and v.s is not None:
+        return PathBufM(str_to_comps(v.s))
+    if isinstance(v, PathM):
+        return PathBufM(v.comps)
+    raise Unsupported("PathBuf::from(%r)" % (v,))
+
+
 def m_file_name_comp(ex, st, args, callee, ty):
     p = _obj(ex, st, args[0])
     if p.comps and ex.decide(st, i_eq(p.comps[-1].kind, I(NORMAL))):
@@ -345,6 +356,8 @@ PATH_MODELS = [
     (rx(r"^<Path as ToOwned>::to_owned$"), m_to_owned),
     (rx(r"^<T as Into<PathBuf>>::into$"), m_to_owned),
     (rx(r"^Path::file_name$"), m_file_name_comp),
+    (rx(r"^Component::<'_>::as_os_str$"), m_identity),
+    (rx(r"^<PathBuf as From<(&OsStr|&str|String|&Path)>>::from$"), m_pathbuf_from_any),
     (rx(r"^<PathBuf as PartialEq>::eq$"), m_path_eq),
     (rx(r"^<U as PartialEq<T>>::eq$"), m_generic_eq),
     (rx(r"^Path::to_path_buf$"), m_to_owned),
